@@ -221,6 +221,10 @@ def judge_bitmaps(run, job):
         elif ext and "!(" in p and not re.fullmatch(r"!\([A-Za-z0-9._|-]*\)", p):
             # a negated group next to other pattern pieces: brush's lookahead translation is only approximate
             cluster = "negated-extglob-in-context"
+        elif ext and re.fullmatch(r"!\([A-Za-z0-9._|-]*\)", p) and "|" in p and b[k] == "1" and h[k] == "0" and any(
+                strs[k][:n] in p[2:-1].split("|") for n in range(1, len(strs[k]))) and strs[k] in p[2:-1].split("|"):
+            # `!(a|ab)` against `ab`: the string IS one alternative and a proper prefix of it is another (open finding C08-F3)
+            cluster = "negated-extglob-prefix-alternatives"
         kf = run.findings.match_signature(cluster) if cluster else None
         if kf:
             run.findings.report(kf)
@@ -385,6 +389,17 @@ def run(run):
     ext_pick = ext_all[: int((1500 if quick else 30000) * scale)]
     for k in range(0, len(ext_pick), CH):
         jobs.append((ext_pick[k:k + CH], strs[:400], "case", True, False, "ext-sample"))
+    # groups of every kind whose alternatives are prefixes of one another or overlap, alone and next to other pieces
+    alts = ["a|ab", "ab|a", "a|ab|abc", "a|a*", "a?|a", "a|b", "ab", "a", "*a", "?|??", "[ab]|a", "a|aa", "ab|abab", "b|ab"]
+    gp_ = []
+    for kind in "?*+@!":
+        for al in alts:
+            g = "%s(%s)" % (kind, al)
+            gp_ += [g, g + "b", "a" + g, g + "*", "*" + g]
+    gstrs = ["", "a", "b", "ab", "ba", "aa", "abc", "aab", "abab", "abb", "aaa", "bab", "abcb", "A"]
+    for k in range(0, len(gp_), CH):
+        jobs.append((gp_[k:k + CH], gstrs, "case", True, False, "ext-groups"))
+        jobs.append((gp_[k:k + CH], gstrs, "dbracket", True, False, "ext-groups"))
     # random richer patterns against richer strings
     rstrs = ["", "a", "b", "ab", "ba", "aa", "A", "aB", "a.b", "a-b", "a_b", ".a", "a b", "é", "aé", "🚀", "a\nb", "\n", "]", "[", "-", "0", "9a", "abc",
              "abab", "aab", "b a", "*", "?", "\\", "a*", "[a]"]
